@@ -16,6 +16,11 @@ pub(crate) mod __verif {
         Box::leak(Box::new(mk_owned(insns, loops, groups, brackets)))
     }
 
+    /// read access to the executor's private input field for contract stubs in other modules
+    pub(crate) fn input_of<'r, I: InputIndexer>(e: &BacktrackExecutor<'r, I>) -> I {
+        e.input
+    }
+
     pub(crate) fn mk_owned(insns: Vec<Insn>, loops: u32, groups: u32, brackets: Vec<BracketContents>) -> CompiledRegex {
         CompiledRegex {
             insns,
